@@ -62,6 +62,11 @@ def op_under_test(name: str) -> dict:
         return {"kind": "files_append", "tag": "ut", "n": 1, "raw": True, "second": {"dir": "p=2"}}
     if name == "files_append_raw_twice_flat":
         return {"kind": "files_append", "tag": "ut", "n": 1, "raw": True, "dir": "p=1", "second": {"dir": "p=1", "name": "pre_second"}}
+    if name == "files_append_raw_late":
+        # append_files() called before the caller's writer has produced the file (raises), then again on the same transaction
+        return {"kind": "files_append", "tag": "ut", "n": 2, "raw": True, "late": "missing"}
+    if name == "files_append_raw_late_garbage":
+        return {"kind": "files_append", "tag": "ut", "n": 1, "raw": True, "dir": "p=1", "late": "garbage"}
     if name == "files_append_raw_dir":
         return {"kind": "files_append", "tag": "ut", "n": 2, "raw": True, "dir": "p=1"}
     if name == "gc0":
